@@ -308,6 +308,16 @@ pub(crate) fn expand_mask<const L: usize>(gamma1: i32, rho: &[u8; 64], mu: u16) 
         "Alg 34: s coeff out of range"
     );
 
+    #[cfg(feature = "verif-hooks")]
+    if crate::verif_hooks::tracing() {
+        // shape of the (secret) mask: polynomials starting with a zero coefficient, zero coefficients overall, extremes
+        let first0 = y.iter().filter(|p| p.0[0] == 0).count() as i64;
+        let zeros = y.iter().map(|p| p.0.iter().filter(|c| **c == 0).count()).sum::<usize>() as i64;
+        let mx = y.iter().flat_map(|p| p.0.iter()).map(|c| i64::from(*c)).max().unwrap_or(0);
+        let mn = y.iter().flat_map(|p| p.0.iter()).map(|c| i64::from(*c)).min().unwrap_or(0);
+        crate::verif_hooks::emit("expand_mask_out", [i64::from(mu), first0, zeros, mx, mn, 0, 0, 0]);
+    }
+
     // 7: return y
     y
 }
